@@ -18,6 +18,7 @@ macro_rules! dispatch {
             "C18" => $f(&props::c18::C18 $(, $arg)*),
             "C20" => $f(&props::c20::C20 $(, $arg)*),
             "C13" => $f(&props::c13::C13 $(, $arg)*),
+            "C08" => $f(&props::c08::C08 $(, $arg)*),
             "C12" => $f(&props::c12::C12 $(, $arg)*),
             other => {
                 eprintln!("unknown property {}", other);
